@@ -181,13 +181,28 @@ func runCleanup(c *core.Ctx) {
 				},
 				Edge: func(s cleanState, from *ssa.BasicBlock, succ int) (cleanState, bool) {
 					if ifi := an.BlockIf(from); ifi != nil {
+						// the lookup of this key in the entries map: plain, or the comma-ok form (value / found flag)
+						keyLookup := func(v ssa.Value, part int) bool {
+							if lk, isLk := v.(*ssa.Lookup); isLk && !lk.CommaOk && part == 0 {
+								return isEntries(lk.X) && an.Origin(lk.Index) == K
+							}
+							if ex, isEx := v.(*ssa.Extract); isEx && ex.Index == part {
+								if lk, isLk := ex.Tuple.(*ssa.Lookup); isLk && lk.CommaOk {
+									return isEntries(lk.X) && an.Origin(lk.Index) == K
+								}
+							}
+							return false
+						}
 						if x, nilSucc, ok := an.NilTest(ifi); ok && succ == nilSucc {
 							if isPruneFn(x) {
 								s.nilFn = true
 							}
-							if lk, isLk := x.(*ssa.Lookup); isLk && isEntries(lk.X) && an.Origin(lk.Index) == K {
+							if keyLookup(x, 0) {
 								s.absent = true
 							}
+						}
+						if base, neg := an.CondBase(ifi.Cond); keyLookup(base, 1) && (succ == 0) == neg {
+							s.absent = true // the ‘not found’ edge of `e, found := entries[key]`
 						}
 					}
 					vals, ok := an.TrackErrEdge([]an.ErrVal{s.errv}, tracked, "", "", from, succ)
@@ -919,6 +934,45 @@ func runDigester(c *core.Ctx) {
 				}
 			}
 		}
+		// … or in a step of the family the commit method calls (dru.blobMove(), mr.blobPut(digest, blob)): the call is then the
+		// commit's place in the method, and the step a second frame in which the comparison may be made
+		var stepFn *ssa.Function
+		var stepBlock *ssa.BasicBlock
+		if commitOp == nil {
+			an.Calls(fn, func(call ssa.CallInstruction) {
+				h := call.Common().StaticCallee()
+				if h == nil || h == fn || len(h.Blocks) == 0 || r.FamilyOfFunc(h) != fam || commitOp != nil {
+					return
+				}
+				if _, isCall := call.(*ssa.Call); !isCall {
+					return
+				}
+				an.Instrs(h, func(in ssa.Instruction) {
+					switch x := in.(type) {
+					case *ssa.Call:
+						if an.IsFunc(x, "os", "Rename") {
+							commitOp, nameVal = x, x.Call.Args[1]
+						}
+					case *ssa.MapUpdate:
+						if _, p := accessPath(x.Map); len(p) > 0 && p[len(p)-1] == "blobs" {
+							commitOp, nameVal = x, x.Key
+						}
+					}
+				})
+				if commitOp != nil {
+					commitBlock = call.Block()
+					stepFn, stepBlock = h, commitOp.Block()
+					// a name handed to the step as a parameter is the caller's argument
+					if p, isP := an.Origin(nameVal).(*ssa.Parameter); isP {
+						for i, hp := range h.Params {
+							if hp == p && i < len(call.Common().Args) {
+								nameVal = call.Common().Args[i]
+							}
+						}
+					}
+				}
+			})
+		}
 		if commitOp == nil || commitBlock == nil {
 			c.Fail("commit:"+un, fn.Pos(), "no rename / blob-map insert found in the commit method")
 			continue
@@ -954,25 +1008,35 @@ func runDigester(c *core.Ctx) {
 			return len(p) > 0 && p[len(p)-1] == dName
 		}
 		cmpOK := false
-		for _, b := range fn.Blocks {
-			ifi := an.BlockIf(b)
-			if ifi == nil {
-				continue
-			}
-			x, y, op, ok := an.CmpTest(ifi)
-			if !ok || (op != token.EQL && op != token.NEQ) {
-				continue
-			}
-			for _, pair := range [][2]ssa.Value{{x, y}, {y, x}} {
-				_, p := accessPath(pair[1])
-				if isDigestOfField(pair[0]) && len(p) > 0 && p[len(p)-1] == st.Field(eField).Name() {
-					neqSucc := 0
-					if op == token.EQL {
-						neqSucc = 1
-					}
-					tb := b.Succs[neqSucc]
-					if tb != commitBlock && !an.BlockReaches(tb, commitBlock) {
-						cmpOK = true
+		type cmpFrame struct {
+			fn *ssa.Function
+			cb *ssa.BasicBlock
+		}
+		frames := []cmpFrame{{fn, commitBlock}}
+		if stepFn != nil {
+			frames = append(frames, cmpFrame{stepFn, stepBlock})
+		}
+		for _, fr := range frames {
+			for _, b := range fr.fn.Blocks {
+				ifi := an.BlockIf(b)
+				if ifi == nil {
+					continue
+				}
+				x, y, op, ok := an.CmpTest(ifi)
+				if !ok || (op != token.EQL && op != token.NEQ) {
+					continue
+				}
+				for _, pair := range [][2]ssa.Value{{x, y}, {y, x}} {
+					_, p := accessPath(pair[1])
+					if isDigestOfField(an.Origin(pair[0])) && len(p) > 0 && p[len(p)-1] == st.Field(eField).Name() {
+						neqSucc := 0
+						if op == token.EQL {
+							neqSucc = 1
+						}
+						tb := b.Succs[neqSucc]
+						if tb != fr.cb && !an.BlockReaches(tb, fr.cb) {
+							cmpOK = true
+						}
 					}
 				}
 			}
@@ -986,8 +1050,16 @@ func runDigester(c *core.Ctx) {
 						continue
 					}
 					for _, pair := range [][2]ssa.Value{{x, y}, {y, x}} {
-						_, p := accessPath(pair[1])
-						if isDigestOfField(an.Origin(pair[0])) && len(p) > 0 && p[len(p)-1] == st.Field(eField).Name() {
+						// (a parameter of the helper stands for what the commit passes)
+						a, b := pair[0], pair[1]
+						if arg, ok := fe.ArgOf(an.Origin(a)); ok {
+							a = arg
+						}
+						if arg, ok := fe.ArgOf(an.Origin(b)); ok {
+							b = arg
+						}
+						_, p := accessPath(an.Strip(b))
+						if isDigestOfField(an.Origin(a)) && len(p) > 0 && p[len(p)-1] == st.Field(eField).Name() {
 							neqSucc := 0
 							if op == token.EQL {
 								neqSucc = 1
@@ -1593,6 +1665,20 @@ func init() {
 						n++
 						key := fmt.Sprintf("stamp:%s#%d", kn(c.P.FuncName(fn)), i+1)
 						ok := stamps(fn, 0, map[*ssa.Function]bool{})
+						if !ok {
+							// the operation may be a step (dru.blobMove()) of an API method that does the refreshing: every call of the
+							// unexported step sits in a function of the family that refreshes the stamp
+							if obj, _ := fn.Object().(*types.Func); obj != nil && !obj.Exported() {
+								sites := c.P.Callers(fn)
+								all := len(sites) > 0
+								for _, site := range sites {
+									if site.Parent() == nil || r.FamilyOfFunc(site.Parent()) != fam || site.Common().StaticCallee() != fn || !stamps(site.Parent(), 0, map[*ssa.Function]bool{}) {
+										all = false
+									}
+								}
+								ok = all
+							}
+						}
 						c.Check(ok, key, o.at.Pos(), "%s %s at %s and refreshes the repository's %s (directly or through what it calls): %v — the store-wide pass skips repositories whose %s is old, so garbage created here would never be collected if nothing else touches the repository", c.P.FuncName(fn), o.what, c.P.Pos(o.at.Pos()), stampField, ok, stampField)
 					}
 				}
@@ -1660,6 +1746,22 @@ func init() {
 							}
 						}
 					}
+				}
+				if commit == nil {
+					// … or in a step of the family the commit method calls: that step is then the frame
+					an.Calls(fn, func(call ssa.CallInstruction) {
+						h := call.Common().StaticCallee()
+						if commit != nil || h == nil || h == fn || len(h.Blocks) == 0 || r.FamilyOfFunc(h) != fam {
+							return
+						}
+						if _, isCall := call.(*ssa.Call); !isCall {
+							return
+						}
+						find(h)
+						if commit != nil {
+							fn = h
+						}
+					})
 				}
 				if commit == nil {
 					c.Fail(key, fn.Pos(), "%s neither stores the blob into the repository's blob map nor renames the temporary file onto the blob's name: a completed upload does not become a blob", c.P.FuncName(fn))
@@ -1998,6 +2100,28 @@ func init() {
 								switch x := base.(type) {
 								case *ssa.Const:
 									return true
+								case *ssa.Call:
+									// a predicate of the cache (c.overCount()): every return is a count comparison
+									h := x.Call.StaticCallee()
+									if h == nil || len(h.Blocks) == 0 || depth > 3 || core.FuncPkgPath(h) != core.FuncPkgPath(fn) || h.Signature.Results().Len() != 1 {
+										return false
+									}
+									okAll, nRet := true, 0
+									an.Instrs(h, func(in ssa.Instruction) {
+										if ret, isRet := in.(*ssa.Return); isRet && len(ret.Results) == 1 {
+											nRet++
+											if !countCond(ret.Results[0], depth+1) {
+												okAll = false
+											}
+										}
+									})
+									// the branches inside the predicate are of the same kind
+									for _, hb := range h.Blocks {
+										if hi := an.BlockIf(hb); hi != nil && !countCond(hi.Cond, depth+1) {
+											okAll = false
+										}
+									}
+									return okAll && nRet > 0
 								case *ssa.Phi:
 									if depth > 4 {
 										return false
